@@ -16,7 +16,8 @@ int main(int argc, char *argv[])
 	unsigned ph = nd_rnd(5);
 	for (unsigned y = 1901; y <= 2099; y++) {
 		/* quick: every 5th year completely (phase from the seed) plus the days around every Gregorian month boundary */
-		int full = thorough || (y % 5) == ph;
+		/* ... and the years in which the table calendars begin and end (1937, 2022, 2077) with their neighbours */
+		int full = thorough || (y % 5) == ph || (y >= 1936 && y <= 1938) || (y >= 2021 && y <= 2023) || (y >= 2076 && y <= 2078);
 		for (unsigned m = 1; m <= 12; m++) for (unsigned d = 1; d <= mdays(y, m); d++) {
 			if (!full && !(d <= 2 || d >= mdays(y, m) - 1)) { continue; }
 			echs_instant_t g = mkinst(y, m, d, 255, 0, 0, 0), h = {.u = 0}, b = {.u = 0};
@@ -40,18 +41,20 @@ int main(int argc, char *argv[])
 		}
 	}
 	/* the other direction: Hijri dates from year 1 to 1600, in and far outside the coverage of the table calendars */
-	for (unsigned y = 1; y <= 1600; y += (thorough ? 1 : 1 + nd_rnd(3))) for (unsigned m = 1; m <= 12; m += (thorough ? 1 : 5)) {
-		unsigned d = 1 + nd_rnd(29);
+	for (unsigned y = 1; y <= 1600; y += (thorough ? 1 : 1 + nd_rnd(3))) for (unsigned m = 1 + (thorough ? 0 : nd_rnd(3)); m <= 12; m += (thorough ? 1 : 3)) {
+		unsigned d = 1 + nd_rnd(30);	/* 30th days too: a month of 29 days has none (skipped by the judge through the month length) */
 		echs_instant_t h = echs_instant_attach_scale(mkinst(y, m, d, 255, 0, 0, 0), (echs_scale_t)s), g = {.u = 0}, b = {.u = 0};
+		unsigned hnd = 0;
 		nd_crashed = 0;
 		if (!sigsetjmp(nd_jb, 1)) {
+			hnd = echs_scale_ndim((echs_scale_t)s, y, m);	/* the length the code gives that month (0: unknown) */
 			g = echs_instant_rescale(h, SCALE_GREGORIAN);
 			if (!echs_nul_instant_p(g)) b = echs_instant_detach_scale(echs_instant_rescale(echs_instant_detach_scale(g), (echs_scale_t)s));
 			g = echs_instant_detach_scale(g);
 		}
 		fprintf(o, "{\"e\":\"HDay\",\"sc\":%u,\"h\":[%u,%u,%u]", s, y, m, d);
 		if (nd_crashed) { fputs(",\"crash\":true}\n", o); continue; }
-		fprintf(o, ",\"g\":[%u,%u,%u],\"back\":[%u,%u,%u]}\n", g.y, g.m, g.d, b.y, b.m, b.d);
+		fprintf(o, ",\"g\":[%u,%u,%u],\"back\":[%u,%u,%u],\"ndim\":%u}\n", g.y, g.m, g.d, b.y, b.m, b.d, hnd);
 	}
 	fflush(o);
 	return 0;
